@@ -132,7 +132,7 @@ type tableRow struct {
 // parseTable splits a klog table (header, rows, ==== line, footer) using the runs of '=' as
 // value column positions. All lines must have the same number of characters.
 func parseTable(out string) (rows []tableRow, footer tableRow, err error) {
-	lines := strings.Split(strings.TrimSuffix(out, "\n"), "\n")
+	lines := strings.Split(strings.Trim(out, "\n"), "\n") // blank framing lines are presentation
 	if len(lines) < 3 {
 		return nil, footer, fmt.Errorf("table has only %d lines", len(lines))
 	}
@@ -240,8 +240,9 @@ func checkC12(c caseC12) (Outcome, error) {
 		return fmt.Sprintf("klog report --aggregate %s fill=%v diff=%v now=%v since=%v until=%v at %s\ntext: %s\nreport:\n%s", c.Agg, c.Fill, c.Diff, c.Now, c.Since, c.Until, envString(c.Env), quoteShort(text), rres.Out)
 	}
 	if len(recs) == 0 {
-		if rres.Out != "" {
-			return out, fmt.Errorf("report of no records prints something\n%s", where())
+		// what a report of nothing prints (nothing, today) is presentation; it must not show numbers
+		if strings.ContainsAny(rres.Out, "123456789") {
+			return out, fmt.Errorf("report of no records shows values\n%s", where())
 		}
 		out.Label("no-records")
 	} else {
@@ -456,7 +457,7 @@ func checkToday(c caseC12, h *harness, file, text string) error {
 		all[0] += t
 		all[1] += r.ShouldMins()
 	}
-	lines := strings.Split(strings.TrimSuffix(res.Out, "\n"), "\n")
+	lines := strings.Split(strings.Trim(res.Out, "\n"), "\n") // blank framing lines are presentation
 	if len(lines) != 5 {
 		return fmt.Errorf("klog today printed %d lines\n%s", len(lines), res.Out)
 	}
@@ -534,8 +535,7 @@ func checkWithTotals(c caseC12, h *harness, file, text string) error {
 			}
 		}
 	}
-	body := strings.TrimPrefix(res.Out, "\n")
-	body = strings.TrimSuffix(body, "\n\n")
+	body := strings.Trim(res.Out, "\n") // blank framing lines are presentation
 	lines := strings.Split(body, "\n")
 	if len(lines) != len(want) {
 		return fmt.Errorf("print --with-totals printed %d lines, expected %d\ntext: %s\noutput: %s", len(lines), len(want), quoteShort(text), quoteShort(res.Out))
